@@ -141,6 +141,34 @@ Proof.
 Qed.
 Print Assumptions single_section_is_the_pipe.
 
+(* ------------------------------------------------------------------ 3. sections_eq_series *)
+
+(* the parameters the pit holds for section k of an n-section pipe (any fluid) are those of a one-section pipe of
+   length / n and loss coefficient / n whose end junctions lie at the interpolated heights *)
+Theorem series_piece_parameters : forall n k len_km zeta hf ht, (1 <= n)%nat -> (k <= n)%nat ->
+  Rsec_length len_km n = Rsec_length (len_km / INR n) 1 /\
+  Rsec_zeta zeta n = Rsec_zeta (zeta / INR n) 1 /\
+  nth k (Rsection_heights hf ht n) 0 = hf + (ht - hf) * INR k / INR n.
+Proof.
+  intros n k len_km zeta hf ht Hn Hk.
+  assert (Hn0 : INR n <> 0) by (apply not_0_INR; lia).
+  destruct (sec_single (len_km / INR n) (zeta / INR n)) as [El Ez]. rewrite El, Ez.
+  split; [|split].
+  - unfold Rsec_length, sec_length. rewrite Rthousand. fold Rinj. rewrite Rinj_INR. field. exact Hn0.
+  - unfold Rsec_zeta, sec_zeta. fold Rinj. rewrite Rinj_INR. reflexivity.
+  - apply section_heights_nth; assumption.
+Qed.
+Print Assumptions series_piece_parameters.
+
+(* hence (liquids) section k has the residual of that one-section pipe fed with the same two pressures *)
+Theorem sections_eq_series : forall n k A D lam len_km zeta m dl rho hf ht (q : nat -> R),
+  (1 <= n)%nat -> (k < n)%nat ->
+  let h := fun i : nat => hf + (ht - hf) * INR i / INR n in
+  section_residual_np A D lam len_km zeta m dl rho hf ht q n k
+  = section_residual_np A D lam (len_km / INR n) (zeta / INR n) m dl rho (h k) (h (S k)) (fun i => q (k + i)%nat) 1 0.
+Proof. exact section_is_series_piece. Qed.
+Print Assumptions sections_eq_series.
+
 (* ------------------------------------------------------------------ 4. load_merge / source_is_negative_sink *)
 
 Theorem load_merge : forall (A : Type) (zero one : A) (add mul sub : A -> A -> A) (opp : A -> A),
